@@ -18,7 +18,7 @@ from . import facts as F
 from .locks import SyncTable, match_with, is_logging_stmt, stem
 from .state import State, Out, Event, join, Abort as _Abort
 from .terms import (AnalysisError, C, P, V, J, ROOT, NONE, TRUE, FALSE, EMPTY, tag, cat,
-                    is_const, classify, is_summary, MAXSET, substitute)
+                    is_const, classify, is_summary, MAXSET, substitute, contains)
 from .exprs import ExprMixin
 
 DEPTH_BOUND = 10
@@ -83,6 +83,9 @@ class Interp(ExprMixin):
         self.raise_sites = []   # (func, ast.Raise, state, ctx)
         self.return_sites = []  # (func, ast.Return, state, value, ctx)
         self.unbound = []       # (function, name, line): a local read on a path on which nothing has bound it
+        self.listing_loops = []       # (function, For node): loops over the entries of a directory listing
+        self.listing_loop_exits = []  # (function, For node, "break"/"return", ctx): early normal exits from loops over a directory listing
+        self.maybe_unbound = []  # (function, name, line): a local read where only some of the joined paths have bound it
         self.calls = []         # (callee qual, call node, ctx, func, state, argmap)
         self.exits = []         # (kind, label, state)
         self.problems = []      # analysis errors (strings)
@@ -187,6 +190,9 @@ class Interp(ExprMixin):
             keys |= set(x.env)
         for k in keys:
             kinds = set()
+            if isinstance(k, str) and not k.startswith("<") and any(k not in x.env for x in states):
+                # bound on one side only (`if c: x = ...`): a later `if c: use(x)` must meet the side that bound it
+                return True
             for x in states:
                 v = x.env.get(k)
                 if not v:
@@ -292,6 +298,8 @@ class Interp(ExprMixin):
                 for t in val:
                     if tag(t) == "tuple" and len(t[1]) == n:
                         part |= t[1][i]
+                    elif tag(t) == "obj" and len(t[2]) == n and self.p.is_namedtuple(t[1]):
+                        part |= t[2][i][1]
                     elif tag(t) == "listof":
                         part |= t[1]
                     else:
@@ -394,6 +402,9 @@ class Interp(ExprMixin):
                 label = e.id
         if label is None:
             label = "*"
+        if label != "*" and isinstance(e, ast.Call):
+            # where the exception now propagating was created: by this function's own raise statement (not by a library call)
+            st = st.set(done=frozenset(d for d in st.done if not (isinstance(d, tuple) and d and d[0] == "raised_in")) | {("raised_in", frame.func.qual)})
         out.add_raise(label, st)
         return None
 
@@ -605,6 +616,8 @@ class Interp(ExprMixin):
                 cur = join(o.normal, o.cont)
             return join(exits, cur)
         elems, st = self.elements(it, st, frame, s)
+        if any(contains(t, lambda x: tag(x) in ("listed", "listdir")) for t in elems) and not any(x[1] is s for x in self.listing_loops):
+            self.listing_loops.append((frame.func, s))
         head = st
         # zero iterations: a tracked list that is empty on this path cannot be what carries
         # the pending markers / temp names it abstractly contains
@@ -616,6 +629,11 @@ class Interp(ExprMixin):
         for _ in range(LOOP_BOUND):
             hs = self.assign(s.target, elems, head, frame, out)
             o = self.exec_block(s.body, hs, frame)
+            if (o.brk is not None or o.ret is not None) and any(contains(t, lambda x: tag(x) in ("listed", "listdir")) for t in elems):
+                # a loop over the entries of a directory listing that can stop before the last entry
+                kind = "break" if o.brk is not None else "return"
+                if not any(r[1] is s and r[2] == kind for r in self.listing_loop_exits):
+                    self.listing_loop_exits.append((frame.func, s, kind, frame.ctx))
             for l, x in o.raises.items():
                 out.add_raise(l, x)
             for pst, pval in o.ret_parts():
@@ -889,6 +907,7 @@ class Interp(ExprMixin):
                     hs = hs.bind(h.name, V(("exc", label)))
                 hs = hs.set(done=hs.done | {("caught", frame.func.qual, h.lineno)})
                 o = self.exec_block(h.body, hs, frame)
+                o.entry = hs
 
                 def unh(x):
                     return None if x is None else x.set(handling=rst.handling)
